@@ -14,6 +14,26 @@ const S: u64 = 1_000_000_000;
 const MS: u64 = 1_000_000;
 const NAN_BITS: u64 = 0x7FF8_0000_0000_0000;
 
+/// Stall lengths (ns) at which the weight 0.1^(x/15) leaves the normal range of binary64
+/// (< 2^-1022: gradual underflow, products with it may be flushed to 0) and at which it is below
+/// half the smallest subnormal (< 2^-1075: every round-to-nearest powf returns 0).  Both are
+/// THEOREMS about the exact real function (props/C09.v, C09_weight_underflow_thresholds;
+/// model/Estimator.v STALL_SUBNORMAL_NS / STALL_ZERO_NS), not measurements.
+const STALL_SUBNORMAL_NS: u64 = 4615 * S;
+const STALL_ZERO_NS: u64 = 4855 * S;
+
+/// Candidate findings of this check that are not (yet) entries of known_findings.json, which is
+/// not this property's file.  While a switch is `false` the oracle COUNTS the failures of that
+/// class (evidence: `candidate-finding:<class>`, plus a note) but does not report them; set it to
+/// `true` once the coordinator has registered the class as an open finding (then `./check` prints
+/// KNOWN-FINDING for it), or to see the VIOLATION it is without the registration.
+///  * `rate-underflow-after-long-stall`: per_sec() == 0.0 (hence eta() == 0) although progress has
+///    been seen since the last restart, at a query >= 4615 s after the last accepted sample.
+///  * `nan-at-backwards-seek-instant`: per_sec() is NaN at a query whose clock reading equals the
+///    instant of a recorded backwards seek that lies strictly after creation / the last reset*.
+const REPORT_UNDERFLOW_FINDING: bool = false;
+const REPORT_REWIND_NAN_FINDING: bool = false;
+
 #[derive(Clone, Debug, PartialEq)]
 enum Op {
     Adv(u64),
@@ -107,10 +127,23 @@ struct Shadow {
     prev_steps: u64,
     prev_time: u64,
     start_time: u64,
+    /// instant of creation / the last reset_eta, reset_elapsed, reset call (NOT moved by a
+    /// backwards seek): the property's "strictly after the bar's creation or last reset"
+    reset_time: u64,
     cap: u8,
     lprev: u64,
     lstart: u64,
     done: bool,
+    /// the harness's own f64 transcription of the two averages (Estimator::record,
+    /// src/state.rs:448-487).  Used ONLY to decide the cause-based class of a stall rise
+    /// (smoothed > double_smoothed at the last sample) and, there, only when `rate()` below
+    /// reproduces every reading of the stall window bit for bit.
+    sm: f64,
+    dsm: f64,
+}
+
+fn weight_of(secs: f64) -> f64 {
+    0.1_f64.powf(secs / 15.0)
 }
 
 fn secs_of(ns: u64) -> f64 {
@@ -136,7 +169,7 @@ impl Table {
 
 impl Shadow {
     fn new(now: u64) -> Self {
-        Shadow { pos: 0, prev_steps: 0, prev_time: now, start_time: now, cap: 10, lprev: 0, lstart: now, done: false }
+        Shadow { pos: 0, prev_steps: 0, prev_time: now, start_time: now, reset_time: now, cap: 10, lprev: 0, lstart: now, done: false, sm: 0.0, dsm: 0.0 }
     }
     fn allow(&mut self, now: u64) -> bool {
         if now < self.lstart {
@@ -160,19 +193,40 @@ impl Shadow {
                 self.prev_steps = new;
                 self.prev_time = now;
                 self.start_time = now;
+                self.sm = 0.0;
+                self.dsm = 0.0;
             }
             return false;
         }
         t.age(now - self.prev_time);
         t.age(now - self.start_time);
+        // transcription of the two weighted averages (classification of stall rises only)
+        let delta_t = secs_of(now - self.prev_time);
+        let new_sps = (new - self.prev_steps) as f64 / delta_t;
+        let weight = weight_of(delta_t);
+        self.sm = self.sm * weight + new_sps * (1.0 - weight);
+        let total_weight = 1.0 - weight_of(secs_of(now - self.start_time));
+        let normalized = self.sm / total_weight;
+        self.dsm = self.dsm * weight + normalized * (1.0 - weight);
         self.prev_steps = new;
         self.prev_time = now;
         true
+    }
+    /// transcription of Estimator::steps_per_second (src/state.rs:501-537)
+    fn rate(&self, now: u64) -> f64 {
+        let reweight = weight_of(secs_of(now.saturating_sub(self.prev_time)));
+        let total_weight = 1.0 - weight_of(secs_of(now.saturating_sub(self.start_time)));
+        let sps = self.sm * reweight / total_weight;
+        let dsps = self.dsm * reweight + sps * (1.0 - reweight);
+        dsps / total_weight
     }
     fn reset_est(&mut self, now: u64) {
         self.prev_steps = self.pos;
         self.prev_time = now;
         self.start_time = now;
+        self.reset_time = now;
+        self.sm = 0.0;
+        self.dsm = 0.0;
     }
     /// returns Some(recorded?) for ops that attempt a record
     fn step(&mut self, o: &Op, now: u64, len: &mut Option<u64>, t: &mut Table) -> Option<bool> {
@@ -247,6 +301,11 @@ struct QRec {
     len: Option<u64>,
     pos: u64,
     est_start: u64,   // shadow: instant of the estimator's last restart
+    reset_time: u64,  // shadow: instant of creation / the last reset_eta, reset_elapsed, reset call
+    last_sample: u64, // shadow: instant of the last accepted sample (= est_start when none since the restart)
+    sh_sm: f64,       // shadow transcription: smoothed, double smoothed, and its own steps_per_second
+    sh_dsm: f64,
+    sh_rate: f64,
     stale: bool,      // shadow: at the last reset op prev_steps != position after the reset
     changed: bool,    // shadow: this op changed the estimator (accepted sample / restart) or finished the bar
 }
@@ -322,6 +381,11 @@ fn drive(len0: Option<u64>, t0: u64, ops: &[Op]) -> Run {
                     len,
                     pos: sh.pos,
                     est_start: sh.start_time,
+                    reset_time: sh.reset_time,
+                    last_sample: sh.prev_time,
+                    sh_sm: sh.sm,
+                    sh_dsm: sh.dsm,
+                    sh_rate: sh.rate(now),
                     stale,
                     changed,
                 }),
